@@ -845,6 +845,11 @@ def delete_pointless_statements(source: str, preserve: Collection[str] = frozens
                     yield child, None
 
 
+def _has_yield(node: ast.AST) -> bool:
+    """A yield makes its function a generator even where it is never reached."""
+    return any(core.walk(node, (ast.Yield, ast.YieldFrom)))
+
+
 def _iter_unreachable_nodes(body: Iterable[ast.AST]) -> Iterable[ast.AST]:
     after_block = False
     for node in body:
@@ -945,7 +950,8 @@ def delete_unreachable_code(source: str) -> str:
     for node in parsing.iter_bodies_recursive(root):
         if not isinstance(node, (ast.If, ast.While)):
             for unreachable_node in _iter_unreachable_nodes(node.body):
-                yield unreachable_node, None, transaction
+                if not _has_yield(unreachable_node):  # e.g. "return; yield"
+                    yield unreachable_node, None, transaction
 
             transaction += 1
             continue
@@ -954,6 +960,9 @@ def delete_unreachable_code(source: str) -> str:
             test_value = core.literal_value(node.test)
         except ValueError:
             continue
+
+        if _has_yield(node):
+            continue  # e.g. "if False: yield", which is there to make a generator
 
         if isinstance(node, ast.While) and not test_value:
             if not node.orelse:  # The else clause of a loop that runs zero times does run
@@ -1985,6 +1994,9 @@ def remove_dead_ifs(source: str) -> str:
             value = core.literal_value(node.test)
         except ValueError:
             continue
+
+        if _has_yield(node):
+            continue  # e.g. "if False: yield", which is there to make a generator
 
         if isinstance(node, ast.While) and not value and not node.orelse:
             yield node, None  # An else clause would still run
